@@ -13,6 +13,12 @@ impl StrH {
     pub fn len(&self) -> (r: usize) ensures r == self.bytes().len() { self.s.len() }
     #[verifier::external_body]
     pub fn is_empty(&self) -> (r: bool) ensures r == (self.bytes().len() == 0) { self.s.is_empty() }
+    // s.chars(): a UTF-8 string of b bytes has between b/4 and b characters
+    #[verifier::external_body]
+    pub fn chars(&self) -> (r: CharsH) ensures r.b == self.bytes().len(), r.n <= r.b, r.b <= 4 * r.n { unimplemented!() }
+    // s.chars().any(|c| c.is_control())
+    #[verifier::external_body]
+    pub fn has_control(&self) -> (r: bool) ensures r == !self.no_control() { self.s.chars().any(|c| c.is_control()) }
     // String::from_utf8: Ok(s) carries exactly the given bytes
     #[verifier::external_body]
     pub fn from_utf8(v: Vec<u8>) -> (r: std::result::Result<StrH, Utf8Err>) ensures r matches Ok(s) ==> s.bytes() == v@, r is Ok <==> is_utf8(v@)
@@ -27,6 +33,10 @@ impl StrH {
     #[verifier::external_body]
     pub fn to_string(&self) -> (r: StrH) ensures r.bytes() == self.bytes(), r.no_control() == self.no_control() { StrH { s: self.s.clone() } }
 }
+pub struct CharsH { pub ghost n: nat, pub ghost b: nat }
+impl CharsH { #[verifier::external_body] pub fn count(self) -> (r: usize) ensures r == self.n { unimplemented!() } }
+// a failed `assert!` in a function that refuses by panicking: control does not continue
+#[verifier::external_body] pub fn refuse_by_panic() ensures false { panic!() }
 impl Clone for StrH {
     #[verifier::external_body]
     fn clone(&self) -> (r: Self) ensures r.bytes() == self.bytes(), r.no_control() == self.no_control() { StrH { s: self.s.clone() } }
